@@ -293,7 +293,7 @@ func c11ProgSpecs(thorough bool) []*gen.ProgSpec {
 						}
 						v.Co64 = true
 					}
-					sp := &gen.ProgSpec{Tracks: []gen.ProgTrack{{Media: "video", Timescale: 1000, T: v}}, MdatFirst: variant == 3}
+					sp := &gen.ProgSpec{Tracks: []gen.ProgTrack{{Media: "video", Timescale: 1000, T: v}}, MdatFirst: variant == 3, MdatLarge: variant == 2}
 					specs = append(specs, sp)
 					// with an audio track that covers the video duration (audio samples of 2 ticks)
 					if (int(m)+ci)%2 == 0 {
